@@ -6,6 +6,9 @@ with k_i = round(w_i * 2^p).  All reads stay inside [start, start+len) of the ro
 """
 
 FO = "src/convolution/optimisations.rs"
+import k_clip
+K2 = [u for u in k_clip.UNITS if u["id"] == "K2"][0]["kani"]
+CLIP_STUB = "#[kani::stub_verified(crate::convolution::optimisations::Normalizer16::clip)]"
 
 SUPPORT = dict(file=FO, name="fv_norm", vis="pub(crate) ", code="""
     use crate::convolution::{Bound, Coefficients};
@@ -48,6 +51,22 @@ SUPPORT = dict(file=FO, name="fv_norm", vis="pub(crate) ", code="""
         Normalizer32 { precision, chunks }
     }
 
+    /// a Normalizer16 with the given precision and windows (start, taps)
+    pub(crate) fn fv_norm16(precision: u8, windows: &[(u32, &[i16])]) -> Normalizer16 {
+        let mut chunks = Vec::with_capacity(windows.len());
+        for (start, taps) in windows.iter() {
+            chunks.push(CoefficientsI16Chunk { start: *start, values: taps.to_vec() });
+        }
+        Normalizer16 { precision, chunks }
+    }
+    pub(crate) fn fv_norm32(precision: u8, windows: &[(u32, &[i32])]) -> Normalizer32 {
+        let mut chunks = Vec::with_capacity(windows.len());
+        for (start, taps) in windows.iter() {
+            chunks.push(CoefficientsI32Chunk { start: *start, values: taps.to_vec() });
+        }
+        Normalizer32 { precision, chunks }
+    }
+
     /// the C03 panic-free premise on one window, in fixed point: sum |k_i| < 4 * 2^p
     pub(crate) fn fv_headroom16(n: &Normalizer16) -> bool {
         let lim: i64 = 4i64 << n.precision;
@@ -65,9 +84,9 @@ SUPPORT = dict(file=FO, name="fv_norm", vis="pub(crate) ", code="""
 
     pub(crate) fn fv_oracle32(n: &Normalizer32, chunk: usize, px: &[u16]) -> u16 {
         let c = &n.chunks[chunk];
-        let mut acc: i128 = 1i128 << (n.precision - 1);
+        let mut acc: i64 = 1i64 << (n.precision - 1);      // |k| < 2^31, pixel < 2^16, <= 3 taps: no i64 overflow
         for (i, &k) in c.values.iter().enumerate() {
-            acc += k as i128 * px[c.start as usize + i] as i128;
+            acc += k as i64 * px[c.start as usize + i] as i64;
         }
         (acc >> n.precision).clamp(0, 65535) as u16
     }
@@ -102,31 +121,67 @@ SUPPORT = dict(file=FO, name="fv_norm", vis="pub(crate) ", code="""
 
 FU8 = "src/convolution/u8x1/native.rs"
 FU16 = "src/convolution/u16x1/native.rs"
+FV8 = "src/convolution/vertical_u8/native.rs"
+FU84 = "src/convolution/u8x4/native.rs"
+
+# SAT cannot prove "kernel == formula" when taps AND pixels are symbolic (the operands reach the two multipliers through
+# different memory paths; no answer in 15 min, z3 back end crashes in CBMC's SMT2 converter).  Each kernel is therefore tied to
+# the formula on two complementary families: (A) concrete tap tables x ALL pixel values, (B) concrete pixel rows x ALL taps.
+TAPS_A = [  # (precision, [(start, taps)] for 2 windows over a 4-pixel line)
+    ("smooth", 14, "[(0, &[4096, 8192, 4096]), (1, &[8192, 8192])]"),
+    ("sharpen", 14, "[(1, &[-1639, 19661, -1638]), (0, &[16384])]"),
+    ("huge", 8, "[(2, &[30000, -29744]), (0, &[-32768, 32767, 257])]"),
+    ("p21", 21, "[(0, &[32767, 32767]), (3, &[-32768])]"),
+]
 
 K7_U8X1 = dict(file=FU8, name="fv_k7_u8x1", code="""
     use crate::convolution::optimisations::fv_norm::*;
     use crate::images::{TypedImage, TypedImageRef};
 
-    #[kani::proof]
-    #[kani::unwind(6)]
-    fn k7_u8x1_horiz_formula() {
-        let src_px: [u8; 4] = kani::any();
+    fn run(src_px: [u8; 4], n: &Normalizer16) -> [u8; 3] {
         let src: [U8; 4] = [U8::new(src_px[0]), U8::new(src_px[1]), U8::new(src_px[2]), U8::new(src_px[3])];
-        let mut dst = [U8::new(0); 3];          // 2 pixels + 1 spare that must stay untouched
         let canary: u8 = kani::any();
-        dst[2] = U8::new(canary);
-        let n = fv_any_normalizer16(2, 3, 4, 1, 21);
+        let mut dst = [U8::new(0), U8::new(0), U8::new(canary)];      // 2 pixels + 1 spare that must stay untouched
         {
             let s = TypedImageRef::new(4, 1, &src).unwrap();
             let mut d = TypedImage::from_pixels_slice(2, 1, &mut dst).unwrap();
-            horiz_convolution(&s, &mut d, 0, &n);
+            horiz_convolution(&s, &mut d, 0, n);
         }
-        kani::cover!(dst[0].0 == 255);
-        kani::cover!(dst[0].0 == 7);
-        assert!(dst[0].0 == fv_oracle16(&n, 0, &src_px));
-        assert!(dst[1].0 == fv_oracle16(&n, 1, &src_px));
         assert!(dst[2].0 == canary);
-        assert!(src[0].0 == src_px[0] && src[3].0 == src_px[3]);
+        assert!(src[0].0 == src_px[0] && src[1].0 == src_px[1] && src[2].0 == src_px[2] && src[3].0 == src_px[3]);
+        [dst[0].0, dst[1].0, 0]
+    }
+""" + "".join("""
+    #[kani::proof]
+    #[kani::unwind(6)]
+    fn k7_u8x1_taps_%s() {
+        let px: [u8; 4] = kani::any();
+        let n = fv_norm16(%d, &%s);
+        let r = run(px, &n);
+        %s
+        assert!(r[0] == fv_oracle16(&n, 0, &px) && r[1] == fv_oracle16(&n, 1, &px));
+    }
+""" % (t + ("" if t[0] == "p21" else "kani::cover!(r[0] == 255);",)) for t in TAPS_A) + """
+    #[kani::proof]
+    #[kani::unwind(6)]
+    fn k7_u8x1_pixels_fixed_any_taps() {
+        let k: [i16; 5] = kani::any();
+        let p: u8 = kani::any();
+        kani::assume(p == 8 || p == 14 || p == 21);
+        let n = fv_norm16(p, &[(0, &[k[0], k[1], k[2]]), (2, &[k[3], k[4]])]);
+        let px = [255u8, 0, 17, 200];
+        let r = run(px, &n);
+        kani::cover!(r[1] == 3);
+        assert!(r[0] == fv_oracle16(&n, 0, &px) && r[1] == fv_oracle16(&n, 1, &px));
+    }
+
+    #[kani::proof]
+    #[kani::unwind(6)]
+    fn k7_u8x1_any_window_position_memory_safe() {
+        // memory safety only: ANY taps, ANY window positions satisfying WinInv, any pixels (value relation not asserted)
+        let px: [u8; 4] = kani::any();
+        let n = fv_any_normalizer16(2, 3, 4, 1, 21);
+        let _ = run(px, &n);
     }
 """)
 
@@ -134,23 +189,103 @@ K7_U16X1 = dict(file=FU16, name="fv_k7_u16x1", code="""
     use crate::convolution::optimisations::fv_norm::*;
     use crate::images::{TypedImage, TypedImageRef};
 
+    fn run(src_px: [u16; 3], n: &Normalizer32) -> u16 {
+        let src: [U16; 3] = [U16::new(src_px[0]), U16::new(src_px[1]), U16::new(src_px[2])];
+        let canary: u16 = kani::any();
+        let mut dst = [U16::new(0), U16::new(canary)];
+        {
+            let s = TypedImageRef::new(3, 1, &src).unwrap();
+            let mut d = TypedImage::from_pixels_slice(1, 1, &mut dst).unwrap();
+            horiz_convolution(&s, &mut d, 0, n);
+        }
+        assert!(dst[1].0 == canary);
+        dst[0].0
+    }
+
     #[kani::proof]
     #[kani::unwind(6)]
-    fn k7_u16x1_horiz_formula() {
-        let src_px: [u16; 3] = kani::any();
-        let src: [U16; 3] = [U16::new(src_px[0]), U16::new(src_px[1]), U16::new(src_px[2])];
-        let mut dst = [U16::new(0); 2];
-        let canary: u16 = kani::any();
-        dst[1] = U16::new(canary);
-        let n = fv_any_normalizer32(1, 2, 3, 1, 45);
-        // the i64 accumulator cannot overflow for |k| < 2^31 and two taps
+    fn k7_u16x1_taps_fixed() {
+        let px: [u16; 3] = kani::any();
+        let n = fv_norm32(30, &[(1, &[-107374182, 1288490188])]);
+        let r = run(px, &n);
+        kani::cover!(r == 65535);
+        assert!(r == fv_oracle32(&n, 0, &px));
+        let n2 = fv_norm32(45, &[(0, &[2147483647, 2147483647, -2147483648])]);
+        assert!(run(px, &n2) == fv_oracle32(&n2, 0, &px));
+    }
+
+    #[kani::proof]
+    #[kani::unwind(6)]
+    fn k7_u16x1_pixels_fixed_any_taps() {
+        let k: [i32; 2] = kani::any();
+        let n = fv_norm32(30, &[(1, &[k[0], k[1]])]);
+        let px = [65535u16, 1, 40000];
+        assert!(run(px, &n) == fv_oracle32(&n, 0, &px));
+    }
+""")
+
+K7_VERT_U8 = dict(file=FV8, name="fv_k7_vu8", code="""
+    use crate::convolution::optimisations::fv_norm::*;
+    use crate::images::{TypedImage, TypedImageRef};
+    use crate::pixels::U8;
+
+    fn run(sp: [u8; 9], n: &Normalizer16, offset: u32) {
+        // 3 columns x 3 rows -> 2 columns (offset..offset+2) x 2 rows; destination starts with arbitrary content
+        let src: [U8; 9] = [U8::new(sp[0]), U8::new(sp[1]), U8::new(sp[2]), U8::new(sp[3]), U8::new(sp[4]), U8::new(sp[5]),
+                            U8::new(sp[6]), U8::new(sp[7]), U8::new(sp[8])];
+        let stale: [u8; 5] = kani::any();
+        let mut dst = [U8::new(stale[0]), U8::new(stale[1]), U8::new(stale[2]), U8::new(stale[3]), U8::new(stale[4])];
+        {
+            let s = TypedImageRef::new(3, 3, &src).unwrap();
+            let mut d = TypedImage::from_pixels_slice(2, 2, &mut dst).unwrap();
+            vert_convolution(&s, &mut d, offset, n);
+        }
+        let o = offset as usize;
+        assert!(dst[0].0 == fv_oracle16(n, 0, &[sp[o], sp[3 + o], sp[6 + o]]));
+        assert!(dst[1].0 == fv_oracle16(n, 0, &[sp[o + 1], sp[4 + o], sp[7 + o]]));
+        assert!(dst[2].0 == fv_oracle16(n, 1, &[sp[o], sp[3 + o], sp[6 + o]]));
+        assert!(dst[3].0 == fv_oracle16(n, 1, &[sp[o + 1], sp[4 + o], sp[7 + o]]));
+        assert!(dst[4].0 == stale[4]);     // spare pixel untouched; the four results do not depend on `stale`: fully assigned
+    }
+
+    #[kani::proof]
+    #[kani::unwind(8)]
+    fn k7_vertical_u8_taps_fixed() {
+        let offset: u32 = kani::any();
+        kani::assume(offset <= 1);
+        run(kani::any(), &fv_norm16(14, &[(0, &[4096, 12288]), (1, &[-1639, 18023])]), offset);
+    }
+
+    #[kani::proof]
+    #[kani::unwind(8)]
+    fn k7_vertical_u8_pixels_fixed_any_taps() {
+        let k: [i16; 3] = kani::any();
+        run([9, 255, 0, 31, 77, 128, 254, 1, 60], &fv_norm16(12, &[(1, &[k[0], k[1]]), (2, &[k[2]])]), 1);
+    }
+""")
+
+K7_U8X4 = dict(file=FU84, name="fv_k7_u8x4", code="""
+    use crate::convolution::optimisations::fv_norm::*;
+    use crate::images::{TypedImage, TypedImageRef};
+
+    #[kani::proof]
+    #[kani::unwind(6)]
+    fn k7_u8x4_taps_fixed() {
+        let sp: [[u8; 4]; 3] = kani::any();
+        let src = [U8x4::new(sp[0]), U8x4::new(sp[1]), U8x4::new(sp[2])];
+        let canary: [u8; 4] = kani::any();
+        let mut dst = [U8x4::new([0; 4]), U8x4::new(canary)];
+        let n = fv_norm16(14, &[(1, &[-1639, 18023])]);
         {
             let s = TypedImageRef::new(3, 1, &src).unwrap();
             let mut d = TypedImage::from_pixels_slice(1, 1, &mut dst).unwrap();
             horiz_convolution(&s, &mut d, 0, &n);
         }
-        kani::cover!(dst[0].0 == 65535);
-        assert!(dst[0].0 == fv_oracle32(&n, 0, &src_px));
+        // every channel (alpha included) is convolved independently with the same taps
+        assert!(dst[0].0[0] == fv_oracle16(&n, 0, &[sp[0][0], sp[1][0], sp[2][0]]));
+        assert!(dst[0].0[1] == fv_oracle16(&n, 0, &[sp[0][1], sp[1][1], sp[2][1]]));
+        assert!(dst[0].0[2] == fv_oracle16(&n, 0, &[sp[0][2], sp[1][2], sp[2][2]]));
+        assert!(dst[0].0[3] == fv_oracle16(&n, 0, &[sp[0][3], sp[1][3], sp[2][3]]));
         assert!(dst[1].0 == canary);
     }
 """)
@@ -168,19 +303,29 @@ UNITS = [dict(
     ),
 ), dict(
     id="K7",
-    title="native horizontal kernels with symbolic taps: dst == clamp((2^(p-1) + sum k_i s_i) >> p), reads inside the window, frame",
-    assumptions=["bounded: u8x1 src 4x1 -> dst 2x1 with <= 3 taps per window; u16x1 src 3x1 -> dst 1x1 with <= 2 taps; taps, pixels, precision, window starts all symbolic"],
+    title="native kernels compute the fixed-point formula fx (round half up, clamped); reads inside the window; frame",
+    assumptions=["bounded / sampled: 'kernel == fx' is checked on (A) 4 concrete tap tables x ALL pixel values and (B) concrete pixel rows x ALL "
+                 "tap values (SAT does not finish when both are symbolic); memory safety is checked with everything symbolic",
+                 "u8x1, u8x4, u16x1 horizontal and the generic u8 vertical kernel; the other native kernels (u8x2, u8x3, u16x2..4, i32, f32, vertical u16/f32) are not under contract"],
     kani=dict(
-        functions=[dict(file=FU8, fn="horiz_convolution"), dict(file=FU16, fn="horiz_convolution")],
-        modules=[SUPPORT, K7_U8X1, K7_U16X1],
-        harnesses=[
-            dict(name="k7_u8x1_horiz_formula", kind="bounded", covers=2, timeout=1500,
-                 bound="src 4x1, dst 2x1 (+1 spare pixel), 1..=3 arbitrary i16 taps per window, precision 1..=21, all pixel values",
-                 claim="every dst pixel equals the fixed-point oracle (round half up, clamped); spare pixel and source untouched; "
-                       "all unchecked reads (row window, clip table) in bounds for ANY taps (memory safety for arbitrary finite custom kernels)"),
-            dict(name="k7_u16x1_horiz_formula", kind="bounded", covers=1, timeout=1500,
-                 bound="src 3x1, dst 1x1 (+1 spare), 1..=2 arbitrary i32 taps, precision 1..=45, all pixel values",
-                 claim="dst pixel equals the 16-bit fixed-point oracle; no i64 overflow; spare pixel untouched"),
+        functions=[dict(file=FU8, fn="horiz_convolution"), dict(file=FU16, fn="horiz_convolution"), dict(file=FU84, fn="horiz_convolution"),
+                   dict(file=FV8, fn="vert_convolution"), dict(file=FV8, fn="scale_row"), dict(file=FV8, fn="convolution_by_u8"), dict(file=FV8, fn="convolution_by_chunks")],
+        modules=[SUPPORT, K7_U8X1, K7_U16X1, K7_VERT_U8, K7_U8X4],
+        harnesses=[dict(name="k7_u8x1_taps_%s" % t[0], kind="bounded", covers=0 if t[0] == "p21" else 1, timeout=900,
+                        bound="tap table '%s' (precision %d, 2 windows over a 4-pixel line), ALL pixel values" % (t[0], t[1]),
+                        claim="u8x1 horizontal kernel == fx for every pixel value; spare pixel and source untouched; table and row reads in bounds") for t in TAPS_A] + [
+            dict(name="k7_u8x1_pixels_fixed_any_taps", kind="bounded", covers=1, timeout=900, bound="pixel row [255,0,17,200], ALL i16 taps (3 + 2), precision 8 / 14 / 21",
+                 claim="u8x1 horizontal kernel == fx for every tap value"),
+            dict(name="k7_u8x1_any_window_position_memory_safe", kind="bounded", timeout=1500, props=["C03"],
+                 bound="4-pixel line, 2 windows of 1..=3 taps at ANY position satisfying WinInv, ANY taps, ANY precision 1..=21, ANY pixels",
+                 claim="memory safety for arbitrary finite custom kernels: every unchecked read (row window, clip table) is in bounds, no panic, frame"),
+            dict(name="k7_u16x1_taps_fixed", kind="bounded", covers=1, timeout=900, bound="two tap tables (precision 30 and 45), ALL u16 pixel values", claim="u16x1 horizontal kernel == fx (16 bit), no i64 overflow, frame"),
+            dict(name="k7_u16x1_pixels_fixed_any_taps", kind="bounded", timeout=900, bound="pixel row [65535,1,40000], ALL i32 taps (2), precision 30", claim="u16x1 horizontal kernel == fx for every tap value"),
+            dict(name="k7_vertical_u8_taps_fixed", kind="bounded", timeout=1500, bound="U8 3x3 -> 2x2, column offset 0..=1 symbolic, one tap table, ALL pixel values, arbitrary stale destination",
+                 claim="vertical u8 kernel == fx over the source column; result independent of the stale destination; spare pixel untouched"),
+            dict(name="k7_vertical_u8_pixels_fixed_any_taps", kind="bounded", timeout=1500, bound="concrete 3x3 image, ALL taps (2 + 1), precision 12", claim="vertical u8 kernel == fx for every tap value"),
+            dict(name="k7_u8x4_taps_fixed", kind="bounded", timeout=900, props=["C01", "C07", "C03", "C05"], bound="U8x4 3x1 -> 1x1, one tap table, ALL pixel values",
+                 claim="all four channels (alpha included) are convolved independently with the same taps; spare pixel untouched"),
         ],
     ),
 )]
